@@ -13,7 +13,7 @@ from vf.xmodel import Schema, Rop, build_api, build_loader
 
 SHARDS = {'quick': 16, 'thorough': 32}
 TIMEOUT = {'quick': 900, 'thorough': 5400}
-MUST_HIT = ['SortOracle.same-set-sorted-before-and-after-edits', 'SortOracle.some-whole-chains', 'SortOracle.ring-with-outsiders', 'SortOracle.other-reflexive-associations', 'SortOracle.after-edit-history', 'SortOracle.mixed-subset-termination', 'SortOracle.chains', 'SortOracle.ring', 'StepBudget.guarded-calls', 'SortOracle.subset-termination']
+MUST_HIT = ['SortOracle.rejected-calls-in-history', 'SortOracle.same-set-sorted-before-and-after-edits', 'SortOracle.some-whole-chains', 'SortOracle.ring-with-outsiders', 'SortOracle.other-reflexive-associations', 'SortOracle.after-edit-history', 'SortOracle.mixed-subset-termination', 'SortOracle.chains', 'SortOracle.ring', 'StepBudget.guarded-calls', 'SortOracle.subset-termination']
 MUST_REACH = ['xtuml/meta.py:sort_reflexive', 'xtuml/meta.py:sort_reflexive.<locals>.sequence_generator']
 ANCHORS = MUST_REACH
 MIN_NONTRIVIAL = {'quick': 500, 'thorough': 500}
@@ -182,6 +182,26 @@ def check_edited(ctx, budget, rng, n, route):
         xtuml.unrelate(insts[x], insts[y], 1, 'precedes')
     for (x, y) in sorted(lb - la):
         xtuml.relate(insts[x], insts[y], 1, 'precedes')
+    # ... and the history also holds calls that were rejected (a relate that would give an instance a second
+    # partner on one side, an unrelate of a pair that is not linked): they leave the chains as they are
+    firsts, seconds = set(x for x, _ in lb), set(y for _, y in lb)
+    for _ in range(rng.randint(0, 4)):
+        x, y = rng.sample(range(n), 2) if n >= 2 else (0, 0)
+        if x == y:
+            break
+        try:
+            if (x, y) in lb or (x not in firsts and y not in seconds):
+                if (x, y) in lb or rng.random() < 0.5:
+                    continue
+                xtuml.unrelate(insts[x], insts[y], 1, 'precedes')
+            else:
+                xtuml.relate(insts[x], insts[y], 1, 'precedes')
+        except (xtuml.RelateException, xtuml.UnrelateException):
+            ctx.hit('SortOracle.rejected-calls-in-history')
+            continue
+        # (an accepted call here is C02's business; the arrangement is no longer the planned one)
+        ctx.count('edit_histories_dropped_after_unexpectedly_accepted_call')
+        return a, b
     ctx.hit('SortOracle.after-edit-history')
     verify_chains(ctx, budget, insts, n, tuple(b), order, qs)
     return a, b
